@@ -1,9 +1,9 @@
 #!/bin/sh
 # usage: tools/try_seed.sh <patch.diff> <Cxx> [tier]   -- apply a seeded change to /repo, run the check, undo it
 patch=$1; prop=$2; tier=${3:-quick}
-git -C /repo diff --quiet || { echo "/repo has uncommitted changes"; exit 2; }
-git -C /repo apply "$patch" || exit 2
+git -C ${CUTPLACE_REPO:-/repo} diff --quiet || { echo "/repo has uncommitted changes"; exit 2; }
+git -C ${CUTPLACE_REPO:-/repo} apply "$patch" || exit 2
 cd "$(dirname "$0")/.." && cp evidence/$prop.json build/evidence_$prop.bak 2>/dev/null; ./check "$prop" "$tier" > build/seed_$prop.log 2>&1; rc=$?; cp build/evidence_$prop.bak evidence/$prop.json 2>/dev/null
-git -C /repo checkout -- .
+git -C ${CUTPLACE_REPO:-/repo} checkout -- .
 tail -4 build/seed_$prop.log
 echo "exit=$rc"
